@@ -39,6 +39,7 @@ var c16Nums = []string{"0", "-0", "1", "-1", "2", "0.4", "0.5", "0.6", "1.5", "2
 	"1e18", "1e19", "1e308", "-1e308", "5e-324", "1e-7", "123456789012345678901234567890", "1e400", "-1e400", "1e-400"}
 
 var c16Other = []string{`null`, `true`, `false`, `""`, `"abc"`, `"true"`, `"false"`, `"t"`, `"F"`, `"yes"`, `"NO"`, `"on"`, `"off"`, `"1"`, `"0"`, `" 1"`, `"1 "`, `"+1"`, `"1e2"`, `"0x10"`, `"NaN"`, `"Infinity"`, `"-inf"`, `"1_0"`, `"tr"`, `"o"`, `"tree"`, `"truE"`, `"trux"`, `"falsy"`, `"fall"`, `"yess"`, `"nope"`, `"nn"`, `"onn"`, `"offf"`, `"11"`, `"00"`, `"01"`, `"2"`, `"-1"`, `"truee"`, `"ye s"`, `"ok"`,
+	`"010"`, `"-010"`, `"0000000100"`, `"08"`, `"-009"`, `"02147483647"`, `"02147483648"`, `"00.50"`, `"007.5"`, `"0e0"`, `"00"`, `"-0"`, `"09223372036854775807"`, `"0o17"`, `"0b11"`, `"1_000"`,
 	`[]`, `[1]`, `[1,"2",[3]]`, `{}`, `{"a":1}`, `"2023-08-15"`, `"12:34:56"`, `"2023-08-15T12:34:56+01:00"`}
 
 var c16Methods = []string{"type", "size", "double", "number", "decimal", "integer", "bigint", "boolean", "string", "abs", "floor", "ceiling", "keyvalue"}
@@ -525,6 +526,59 @@ func runKeyvalue(c *h.Ctx, rounds int) {
 			c.Violate("kv.id.stable", h.F("kind", "changed"), "ids changed between two executions on the same document", cs)
 		} else {
 			c.Held("kv.id.stable")
+		}
+		// the id .keyvalue() gives a triple is the same whether the second
+		// .keyvalue() is chained or sits inside a filter on the triple
+		if round%4 == 1 {
+			kdoc := h.Decode(`{"b":{"c":2,"d":3},"e":{"f":1},"g":5}`, round%8 == 1)
+			och := h.Call("query", cachedPath("$.keyvalue().keyvalue().id"), kdoc, h.Opts{})
+			c.Eval(1)
+			if och.Class == h.OK && len(och.Items) == 9 {
+				uniq := map[string]any{}
+				for _, it := range och.Items {
+					uniq[h.Canon(it)] = it
+				}
+				keys := map[string]bool{}
+				bad := ""
+				for _, x := range uniq {
+					for _, form := range []string{"$.keyvalue() ? (@.keyvalue().id == $x).key", "$.keyvalue() ? (exists(@ ? (@.keyvalue().id == $x))).key", "strict $.keyvalue() ? (@.keyvalue().id == $x && @.keyvalue().key == \"id\").key"} {
+						of := h.Call("query", cachedPath(form), kdoc, h.Opts{Vars: map[string]any{"x": x}})
+						c.Eval(1)
+						if of.Class != h.OK || len(of.Items) != 1 {
+							bad = fmt.Sprintf("%s with x = %s (an id reported by $.keyvalue().keyvalue().id) returned %s; exactly one triple has that id", form, h.Canon(x), of.Summary())
+						} else {
+							keys[h.Canon(of.Items[0])] = true
+						}
+					}
+				}
+				if bad == "" && (len(uniq) != 3 || len(keys) != 3) {
+					bad = fmt.Sprintf("$.keyvalue().keyvalue().id on an object of 3 members reported %d distinct ids matching %d triples", len(uniq), len(keys))
+				}
+				if bad != "" {
+					c.Violate("kv.id.equal", h.F("kind", "chained-vs-in-filter"), bad, cs)
+				} else {
+					c.Held("kv.id.equal")
+				}
+			}
+		}
+		// ... also for objects reached through the triple of an earlier .keyvalue()
+		// (the value member of a triple is the document's own object)
+		nested := "$.keyvalue().value.keyvalue().id"
+		if pn := cachedPath(nested); pn != nil && round%4 == 0 {
+			ndoc := h.Decode(`{"b":{"c":2,"d":3},"e":{"f":1}}`, false)
+			o1 := h.Call("query", pn, ndoc, h.Opts{})
+			for i := 0; i < 1+round%5; i++ {
+				sink = append(sink, make([]byte, 1<<(4+i)))
+			}
+			o2 := h.Call("query", pn, ndoc, h.Opts{})
+			c.Eval(2)
+			if o1.Class == h.OK && o2.Class == h.OK && len(o1.Items) > 0 {
+				if h.CanonList(o1.Items) != h.CanonList(o2.Items) {
+					c.Violate("kv.id.stable", h.F("cause", "distance-to-a-triple-allocated-per-execution"), fmt.Sprintf("%s returned %s, then %s on the same document value", nested, h.CanonList(o1.Items), h.CanonList(o2.Items)), cs)
+				} else {
+					c.Held("kv.id.stable")
+				}
+			}
 		}
 	}
 	c.Sample("keyvalue", map[string]any{"path": "$.**.keyvalue()", "doc": "slab-allocated objects o0..oN, root in the middle, each with a marker member"})
